@@ -3,15 +3,18 @@
 Implementation side: REAL Devices + Hosts + Controllers on a LocalLink.  A *case* is
 (procedure, cut kind, cut side, k): the procedure (something that awaits the peer) is started,
 and after the k-th HCI packet crossing a host/controller boundary (counted at delivery, both
-sides, both directions; k = 0: right after the procedure's first synchronous step) the link is
-cut: `disc` = Connection.disconnect() issued by that side, `loss` = the HCI transport of that
-side is lost (Host.on_transport_lost(), every later packet of that side dropped).  The loop is
-then run to quiescence, then virtual time is advanced timer by timer (no wall-clock waiting)
-and the loop run to quiescence again.
+sides, both directions; k = 0: after the first step of the calls just started) the link is cut
+at that message boundary (loop.call_soon): `disc` = Connection.disconnect() issued by that side
+(if the device still holds the connection), `loss` = the HCI transport of that side is lost
+(Host.on_transport_lost(), every later packet of that side dropped).  The loop is then run to
+quiescence, then virtual time is advanced timer by timer (no wall-clock waiting) and the loop
+run to quiescence again.
 
 Oracle (implementation observables only): every awaited call is done (result | error |
-cancelled; STILL PENDING = violation), no registry of either stack mentions the closed
-connection, host / device / controller agree on the live set.
+cancelled; STILL PENDING = violation; a call released by its own 30 s timer counts as
+released), no registry of a closed stack mentions the connection, host / device / controller
+agree on the live set, and after a disconnection no task the stacks spawned during the
+procedure is still pending.
 
 Correspondence: the registry contents observed immediately before the stack processes the
 Disconnection Complete event (or the transport loss) are abstracted into a state of
@@ -25,12 +28,12 @@ import logging
 import os
 import sys
 
-from lib.verif import coq_list, coq_z
 
 PROP_FILES = ['Props/C16.v']
 LEVEL = 'partial'
 
-logging.disable(logging.CRITICAL) if not __import__("os").environ.get("C16_LOG") else None
+if not os.environ.get('C16_LOG'):      # C16_LOG=1: keep bumble's logging (debugging aid only)
+    logging.disable(logging.CRITICAL)
 
 STEP_BUDGET = 20000          # loop iterations per settle
 TIMER_HORIZON = 100.0        # virtual seconds advanced after the cut (GATT timeouts are 30 s)
@@ -496,6 +499,21 @@ async def prep_pair(w):
     _pairing(w)
 
 
+async def prep_pair_prompt(w):
+    # the responder's user never answers the confirmation prompt
+    from bumble.pairing import PairingConfig, PairingDelegate
+
+    class Silent(PairingDelegate):
+        async def confirm(self, auto=False):
+            await asyncio.get_running_loop().create_future()
+            return True
+
+    w.devices[0].pairing_config_factory = lambda connection: PairingConfig(
+        sc=True, mitm=False, bonding=True, delegate=PairingDelegate())
+    w.devices[1].pairing_config_factory = lambda connection: PairingConfig(
+        sc=True, mitm=False, bonding=True, delegate=Silent())
+
+
 async def _flood(w):
     # more ATT write commands than the controller has buffers: packets wait in the host queue
     for i in range(80):
@@ -541,6 +559,7 @@ PROCEDURES = {
     'eatt_indicate': (False, prep_eatt_subscribed, lambda w: [
         w.spawn('eatt indicate', 1, 'indicate', w.devices[1].gatt_server.indicate_subscribers(w.ch, b'abc'))]),
     'smp_pair': (False, prep_pair, lambda w: [w.spawn('pair', 0, 'pair', w.conns[0].pair())]),
+    'smp_pair_prompt': (False, prep_pair_prompt, lambda w: [w.spawn('pair', 0, 'pair', w.conns[0].pair())]),
     'coc_connect': (False, prep_coc_server, lambda w: [
         w.spawn('coc connect', 0, 'l2cap_connect', _coc_connect(w))]),
     'coc_disconnect': (False, prep_coc_open, lambda w: [
@@ -611,6 +630,8 @@ async def _rfcomm_start(w):
 
 
 CUTS = [('disc', 0), ('disc', 1), ('loss', 0), ('loss', 1)]
+# uncut run does not end with a result: Read RSSI is rejected by the virtual controller; the user never answers
+OPEN_ENDED = ('hci_rssi', 'smp_pair_prompt')
 
 
 # ============================================================================= one case
@@ -728,6 +749,12 @@ def oracle(res):
             if stale:
                 bad.append((f'{tag}:stale:{reg}',
                             f'{tag} k={k}: side {side} registry {reg} still holds {stale} after handle {h} closed'))
+    if cut is not None and cut[0] == 'disc' and res['cut_fired']:
+        # both stacks have closed the connection: nothing the stacks spawned for it may still be waiting
+        for name in res.get('internal_tasks_left', []):
+            bad.append((f'{tag}:internal:{name}',
+                        f'{tag} k={k}: task {name} spawned by the stack is STILL PENDING after the connection is '
+                        f'gone on both sides and every timer has fired'))
     for side in (0, 1):
         final = res['final'][side]
         ctl = sorted(final['controller.Controller.le_connections'] + final['controller.Controller.classic_connections'])
@@ -920,7 +947,7 @@ def campaign(ctx, full, procs=None):
         ctx.case((p, 'uncut'), True, None)
         for sig, text in oracle(base):
             ctx.violation(sig, text, {'proc': p, 'cut': None, 'k': None})
-        if any(x['final'] != 'result' for x in base['waiters']) and p not in ('hci_rssi',):  # (Read RSSI is rejected by the virtual controller)
+        if any(x['final'] != 'result' for x in base['waiters']) and p not in OPEN_ENDED:
             ctx.disagree('uncut procedure does not end with a result', {'proc': p}, 'result', base['waiters'])
         ks = cut_points(ctx.rng, base['packets'], full)
         for cut in CUTS:
@@ -999,7 +1026,26 @@ def run(ctx):
                     'gatt_server.py / gatt_client.py / smp.py / l2cap.py teardown paths; tied to the code by the '
                     'presence translator (Gen/C16Cleanup.v) and by differential execution of the fan-out step',
                     'asyncio internals loop._ready / loop._scheduled are read to detect idleness (CPython 3.12)']
-    campaign(ctx, full=not ctx.quick())
+    global EXTRA_ATTRS, _FULL_DONE
+    broken = bool(ctx.proof_failures)
+    if broken:
+        # The translator or a theorem failed.  The driver only calls search() when no oracle
+        # violation at all was reported (known ones included), so the directed search is done
+        # here: every cut point of every procedure, watching also the containers the
+        # translator could not classify.
+        ctx.log('proof obligations broken: running the full campaign as directed search')
+        try:
+            from translate import c16_registries as tr
+            EXTRA_ATTRS = tr.unclassified(ctx.repo)
+        except Exception:
+            EXTRA_ATTRS = []
+        ctx.extra['watched_unclassified_containers'] = [list(x) for x in EXTRA_ATTRS]
+    full = broken or not ctx.quick()
+    campaign(ctx, full=full)
+    _FULL_DONE = full
+
+
+_FULL_DONE = False
 
 
 def search(ctx):
@@ -1007,6 +1053,8 @@ def search(ctx):
     procedure, with any container attribute the translator could not classify added to the
     snapshot generically, and let the oracle look for stale entries / hanging calls."""
     global EXTRA_ATTRS
+    if _FULL_DONE:
+        return
     try:
         from translate import c16_registries as tr
         EXTRA_ATTRS = tr.unclassified(ctx.repo)
